@@ -37,6 +37,18 @@ def _c14_env(rec):
 
     base = histsim.child({"kind": "probe", "scenario": rec["probe"]}, rec["envs"][0])
     v = None
+    if rec.get("variant_scenario"):
+        # a simulated-parallel or stalled-machine variant, run in this interpreter
+        other = histsim.probe(rec["variant_scenario"])
+        stalled_loudly = rec["variant"].startswith("stall") and \
+            other["outcome"] == "raised" and other.get("exc") == "FunctionTimedOut"
+        if not stalled_loudly and (other["outcome"], other.get("digest")) != \
+                (base["outcome"], base.get("digest")):
+            v = {"class": "ENV_DEPENDENCE",
+                 "detail": f"probe gives {other['outcome']}/{other.get('digest')} under "
+                           f"{rec['variant']} but {base['outcome']}/{base.get('digest')} in "
+                           "the baseline environment"}
+        return {"violation": v, "event_log_digest": None}
     for env in rec["envs"][1:]:
         other = histsim.child({"kind": "probe", "scenario": rec["probe"]}, env)
         if (other["outcome"], other.get("digest")) != (base["outcome"], base.get("digest")):
